@@ -74,7 +74,7 @@ def shape_key(t):
 def generate(ctx, thorough):
     # role 1: the round-trip laws on all trees to depth 3 over one operator per level; mutant twins must fail
     D.model_check(ctx, "C11_MC", "C11_laws.cfg")
-    for m in (MUTANTS if thorough else MUTANTS[:2] + MUTANTS[3:4]):
+    for m in (MUTANTS if thorough else MUTANTS[:1] + MUTANTS[3:4]):
         D.mutant_twin(ctx, "C11_MC", "C11_mut_%s.cfg" % m, m)
     # role 2: one behaviour per shape; leaves chosen by the evaluator
     gen = D.model_check(ctx, "C11_MC", "C11_gen.cfg")
@@ -82,7 +82,7 @@ def generate(ctx, thorough):
     if len(recs) < 1500:
         raise D.Inconclusive("generator emitted only %d cases" % len(recs))
     if thorough:
-        sim = D.run_tlc(ctx, "C11_MC", "C11_sim.cfg", simulate="num=600", depth=12, tag="sim")
+        sim = D.run_tlc(ctx, "C11_MC", "C11_sim.cfg", simulate="num=450", depth=12, tag="sim")
         if sim.violated:
             raise D.Inconclusive("simulation violates the specification's own laws: %s" % sim.violated)
         if len(sim.records) < 2000:
